@@ -75,9 +75,16 @@ EXTRA["C15"] = {
     "text": "Bounded symbolic model checking of the real unify / unify_all (type_checker.rs) on type templates of depth 1 "
             "(quick) / 2: for every feasible path returning a combined type u the real is_subtype is executed on (a,u) "
             "and (b,u) and z3 decides both hold; unify(t,t) returns Some(t) (structural equality, merged); unify_all "
-            "over 2 (quick) / 3 elements covers every element. Replay through `garden verif unify` / `subtype`.",
-    "note": "Trusted: rsx, z3, structural model of derive(PartialEq) on Type. Bounded, not a proof; the call sites in "
-            "the checker (list/dict literals, if/else, match) are outside the claim.",
+            "over 2 (quick) / 3 elements covers every element. Replay through `garden verif unify` / `subtype`. "
+            "Part B (join data-flow kernel): each join site of the real checker - check_match (inferring and checking), "
+            "infer_if, infer_try, the list and dict literal arms of infer_expr_, the list arm of check_expr_ - is executed "
+            "with per-element inference stubbed to one distinct type token per element and unify / unify_all stubbed to "
+            "record their input; decided on every path (0..2 elements quick / 0..3, every pattern shape): the join receives "
+            "exactly the tokens of all elements, once, and in inferring mode the site returns a type built from the join's "
+            "result. Replay: ill-typed programs per site and element position through `garden check`.",
+    "note": "Trusted: rsx, z3, structural model of derive(PartialEq) on Type. Bounded, not a proof. Part B assumes the "
+            "per-element inference functions return the element's type (that is C16, not applicable here); the call sites "
+            "are covered only as data flow from element types to the join and from the join to the site's result.",
     "design_ref": "DESIGN.md section 6, C15",
 }
 
